@@ -19,8 +19,9 @@ import tempfile
 
 from vlib import core
 
-QUICK_MODELS = [('GENCLS', 'e_str'), ('PQ', 'service'), ('TGOV1', 'v_str'), ('Line', 'e_str')]
-THOROUGH_KINDS = ('e_str', 'v_str', 'service')
+QUICK_MODELS = [('GENCLS', 'e_str'), ('PQ', 'service'), ('TGOV1', 'v_str'), ('Line', 'e_str'), ('EXAC1', 'v_iter'),
+                ('ESST3A', 'service')]
+THOROUGH_KINDS = ('e_str', 'v_str', 'service', 'v_iter')
 
 CHILD = r'''
 import sys, json, os
@@ -52,6 +53,11 @@ def patched(self, *a, **k):
         for n, v in list(self.__dict__.items()):
             if isinstance(v, BaseVar) and getattr(v, 'v_str', None) and getattr(v, 'v_iter', None) is None:
                 v.v_str = '(' + str(v.v_str) + ') + 1'; edited['what'] = n; break
+    elif kind == 'v_iter':
+        from andes.core.var import BaseVar
+        for n, v in list(self.__dict__.items()):
+            if isinstance(v, BaseVar) and getattr(v, 'v_iter', None):
+                v.v_iter = '(' + str(v.v_iter) + ') + 1'; edited['what'] = n; break
     elif kind == 'service':
         from andes.core.service import ConstService, VarService
         for n, v in list(self.__dict__.items()):
